@@ -348,6 +348,12 @@ func init() {
 				nw := len(c.WriteLog())
 				res := callOp(mc, step[3:])
 				outs = append(outs, res+" "+writesStr(c.WriteLog()[nw:])+" "+itoa(before-c.Pending()))
+			case "callwf":
+				c.FailWrites = 1
+				nw := len(c.WriteLog())
+				res := callOp(mc, step[1:])
+				c.FailWrites = 0
+				outs = append(outs, res+" "+writesStr(c.WriteLog()[nw:])+" 0")
 			case "setunit":
 				mc.SetUnitId(uint8(unhx(step[1])))
 				outs = append(outs, "ok")
